@@ -462,6 +462,65 @@ func c01LapseEnum() mc.Enum {
 	})
 }
 
+// c01GasEnum: the gas limit of a transaction is the sender's to choose. A newcomer sends a payload that does not prove
+// the challenged chunk under every gas limit from 0 to what the message needs (in steps of 50) and beyond: whatever
+// the limit, the storage state is what it was before - in particular the sender is neither listed nor holds a record.
+func c01GasEnum() mc.Enum {
+	ae := c01AliasEnum()
+	e := mc.Enum{Prop: "C01", Name: "C01/gas-limits", Cfg: ae.Cfg, Setup: ae.Setup, ConfirmB: true, ConfB: 3}
+	for _, kind := range []string{"broken", "other-chunk", "wrong-index"} {
+		kind := kind
+		e.Cases = append(e.Cases, mc.Case{Desc: "gas-sweep|" + kind, Run: func(env world.Env) mc.CaseResult {
+			w := env.W()
+			f := c01Mid
+			cr := mc.CaseResult{Class: "no-limit-leaves-a-trace", Nontrivial: true}
+			u, p1 := w.A("U").Bech, w.A("P1").Bech
+			start := env.Ctx().BlockHeight()
+			mustOK(env.Deliver(storagetypes.NewMsgPostFile(u, f.merkle, int64(len(f.data)), 0, 0, 2, "{}")), "PostFile")
+			item, hl := f.proofFor(3)
+			toProve := int64(0)
+			switch kind {
+			case "broken":
+				hl = []byte(`{"Hashes":[],"Index":0}`)
+			case "wrong-index":
+				toProve = 3
+			}
+			msg := func() *storagetypes.MsgPostProof {
+				return storagetypes.NewMsgPostProof(p1, f.merkle, u, start, item, hl, toProve)
+			}
+			full := env.DeliverGas(msg(), world.TxGas)
+			if ok, _ := postProofOK(w, full); ok {
+				cr.Viols = append(cr.Viols, viol("credit-only-by-valid-proof", "junk-accepted", "payload %s was accepted with ample gas", kind))
+				return cr
+			}
+			needed := uint64(full.GasUsed)
+			if needed == 0 || needed > 2_000_000 {
+				needed = 200_000
+			}
+			before := w.DumpStore(env.Ctx(), "storage")
+			var bad []uint64
+			for g := uint64(0); g <= needed+3000; g += 50 {
+				res := env.DeliverGas(msg(), g)
+				cr.Count++
+				cr.NontrivialCount++
+				file, found := getFile(w, env.Ctx(), f.merkle, u, start)
+				_, hasRec := w.App.StorageKeeper.GetProof(env.Ctx(), p1, f.merkle, u, start)
+				if !storeEqual(before, w.DumpStore(env.Ctx(), "storage")) || hasRec || (found && proverListed(file, p1)) {
+					bad = append(bad, g)
+					if len(bad) == 1 {
+						cr.Viols = append(cr.Viols, viol("credit-only-by-valid-proof", "sender-of-rejected-proof-credited under-a-chosen-gas-limit",
+							"payload %s sent with gas limit %d (the message needs %d): accepted=%v, sender listed=%v, proof record=%v, storage store changed=%v",
+							kind, g, needed, res.OK(), found && proverListed(file, p1), hasRec, !storeEqual(before, w.DumpStore(env.Ctx(), "storage"))))
+					}
+					return cr // the state is no longer the one every limit is tried on
+				}
+			}
+			return cr
+		}})
+	}
+	return e
+}
+
 func c01OtherChunkEnum() mc.Enum {
 	ae := c01AliasEnum()
 	e := mc.Enum{Prop: "C01", Name: "C01/other-chunk", Cfg: ae.Cfg, Setup: ae.Setup, ConfirmB: true, ConfB: 1}
@@ -592,6 +651,7 @@ func c01AliasEnum() mc.Enum {
 func init() {
 	CaseReplayers["C01/index-aliasing"] = func(r *mc.Run, c string) { r.ReplayCase(c01AliasEnum(), c) }
 	CaseReplayers["C01/other-chunk"] = func(r *mc.Run, c string) { r.ReplayCase(c01OtherChunkEnum(), c) }
+	CaseReplayers["C01/gas-limits"] = func(r *mc.Run, c string) { r.ReplayCase(c01GasEnum(), c) }
 	CaseReplayers["C01/lapse-paths"] = func(r *mc.Run, c string) { r.ReplayCase(c01LapseEnum(), c) }
 	regScenario(C01{})
 	regScenario(C01{Two: true})
@@ -607,5 +667,7 @@ func init() {
 		r.AddEnum(c01OtherChunkEnum(), workers(), time.Now().Add(10*time.Minute))
 		r.Rules = append(r.Rules, "lapse paths: 7 fixed histories of 10-14 steps (three provers join; attestation forms requested and left unsigned or one signature short; then seven blocks in which nobody proves), every step judged by the same oracle as the search")
 		r.AddEnum(c01LapseEnum(), workers(), time.Time{})
+		r.Rules = append(r.Rules, "gas limits: a newcomer sends each of three payloads that do not prove the challenged chunk under every gas limit from 0 to what the message needs plus 3000, in steps of 50 (seam A: a finite gas meter around the handler; seam B: the limit of the signed transaction): the storage store stays byte-identical")
+		r.AddEnum(c01GasEnum(), workers(), time.Time{})
 	}}
 }
